@@ -95,7 +95,20 @@ impl Area for A {
     fn gen(&self, rng: &mut Rng, n: usize, out: &mut dyn Write) {
         for _ in 0..n {
             match rng.below(20) {
-                0 => writeln!(out, "node {}", hex(&some_node(rng))).unwrap(),
+                0 => {
+                    if rng.chance(1, 4) {
+                        // a node id whose first bytes are the hash prefix of its own tail
+                        let tail = rng.bytes(10);
+                        let wrapped = M::map_to_db_sort_key(&tail).0; // hash(tail)[..20] ++ tail = 30 bytes
+                        if wrapped.len() == 30 {
+                            writeln!(out, "node {}", hex(&wrapped)).unwrap();
+                        } else {
+                            writeln!(out, "node {}", hex(&some_node(rng))).unwrap();
+                        }
+                    } else {
+                        writeln!(out, "node {}", hex(&some_node(rng))).unwrap()
+                    }
+                }
                 1 => {
                     // unnode: valid db node keys, keys of boundary lengths, arbitrary bytes
                     let b = match rng.below(4) {
@@ -120,7 +133,20 @@ impl Area for A {
                 }
                 5 | 6 => {
                     let l = some_len(rng);
-                    writeln!(out, "map {}", hex(&some_bytes(rng, l))).unwrap()
+                    let k = some_bytes(rng, l);
+                    if rng.chance(1, 4) {
+                        // structure-aware adversarial key: a logical key that is byte-identical to the DB encoding of
+                        // another logical key (hash(K)[..n] ++ K), also doubly wrapped; the mapping must still be injective
+                        let once = M::map_to_db_sort_key(&k).0;
+                        let twice = M::map_to_db_sort_key(&once).0;
+                        writeln!(out, "map {}", hex(&k)).unwrap();
+                        writeln!(out, "map {}", hex(&once)).unwrap();
+                        if rng.chance(1, 2) {
+                            writeln!(out, "map {}", hex(&twice)).unwrap();
+                        }
+                    } else {
+                        writeln!(out, "map {}", hex(&k)).unwrap()
+                    }
                 }
                 7 => {
                     let b = match rng.below(3) {
@@ -141,7 +167,16 @@ impl Area for A {
                 }
                 8 | 9 => {
                     let l = some_len(rng);
-                    writeln!(out, "sorted {} {}", hex(&some_prefix(rng)), hex(&some_bytes(rng, l))).unwrap()
+                    let pre = some_prefix(rng);
+                    let k = some_bytes(rng, l);
+                    if rng.chance(1, 4) {
+                        // same idea for the sorted index: the payload is the hash-prefixed form of another payload
+                        let wrapped = M::map_to_db_sort_key(&k).0;
+                        writeln!(out, "sorted {} {}", hex(&pre), hex(&k)).unwrap();
+                        writeln!(out, "sorted {} {}", hex(&pre), hex(&wrapped)).unwrap();
+                    } else {
+                        writeln!(out, "sorted {} {}", hex(&pre), hex(&k)).unwrap()
+                    }
                 }
                 10 => {
                     let b = match rng.below(3) {
